@@ -14,6 +14,7 @@ import (
 
 	"github.com/projectcalico/calico/felix/environment"
 	"github.com/projectcalico/calico/felix/generictables"
+	"github.com/projectcalico/calico/felix/iptables/testutils"
 	"github.com/projectcalico/calico/felix/nftables"
 	"github.com/projectcalico/calico/felix/rules/rulesdefs"
 	"github.com/projectcalico/calico/lib/logrusr"
@@ -125,6 +126,10 @@ func (b *nftBackend) start(k kernelT, mode string) {
 
 func (b *nftBackend) restart() {
 	fd := environment.NewFeatureDetector(nil)
+	// no real "iptables --version" / /proc/version: feature detection talks to the repository's mock
+	fdp := testutils.NewMockDataplane("filter", map[string][]string{}, "nft")
+	fd.NewCmd = fdp.NewCmd
+	fd.GetKernelVersionReader = fdp.GetKernelVersionReader
 	b.table = nftables.NewTable("calico", 4, rulesdefs.RuleHashPrefix, fd, nftables.TableOptions{
 		NewDataplane: func(fam knftables.Family, name string, _ ...knftables.Option) (knftables.Interface, error) {
 			return &nftWrap{b: b}, nil
